@@ -15,7 +15,7 @@ Inductive tstep (s : state) : task -> task -> Prop :=
   | ts_refl x : tstep s x x
   | ts_permit x sem : k_st x = TSubmitting -> k_permit x = -1 -> tstep s x (with_permit x sem)
   | ts_enqueue x : k_st x = TSubmitting -> 0 <= k_permit x -> k_stage x <> SInline -> tstep s x (with_st x TQueued)
-  | ts_assoc x : k_assoc x = false -> k_st x <> TSubmitting -> tstep s x (with_assoc x true)
+  | ts_assoc x : k_assoc x = 0 -> k_st x <> TSubmitting -> k_kind x <> KSubmission -> k_stage x <> SInline -> tstep s x (with_assoc x 1)
   | ts_start x : k_st x = TQueued -> tstep s x (with_st x TStarted)
   | ts_deps x : k_st x = TStarted -> forallb (dep_done s) (k_deps x) = true -> tstep s x (with_st x TDeps)
   | ts_skip x : k_st x = TDeps -> coord_done s (k_t x) = true ->
@@ -38,12 +38,12 @@ Inductive tstep (s : state) : task -> task -> Prop :=
   | ts_sub_ann_end x : k_kind x = KSubmission -> k_phase x = 4 -> tstep s x (with_phase x 5)
   | ts_end x : (if k_final x then k_st x = TAnnDone else k_st x = TPost) -> tstep s x (with_st x TEnded)
   | ts_release x : k_st x = TEnded -> k_released x = false -> tstep s x (with_released x)
-  | ts_dissoc x : k_st x = TEnded -> k_assoc x = true -> tstep s x (with_assoc x false).
+  | ts_dissoc x : k_st x = TEnded -> k_assoc x = 1 -> tstep s x (with_assoc x 2).
 
 (** a freshly submitted task *)
 Definition fresh_task (k t : Z) (g : stage) (a : actor) (final : bool) (deps : list Z) (kind : Z) : task :=
   mkTask k t g a final deps kind (if stage_eqb g SInline then TQueued else TSubmitting)
-         false false false 0 (-1) false false.
+         false false false 0 (-1) 0 false.
 
 Definition tasks_step (s : state) (l l' : list task) : Prop :=
   (forall k x, find_task k l = Some x -> exists x', find_task k l' = Some x' /\ tstep s x x') /\
@@ -178,8 +178,9 @@ Proof.
   - (* EAssoc *)
     sub_on_task H. inv Hf. injection Hf as <-. split_ands.
     eapply upd_task_by_tstep; [exact Hft| |reflexivity].
-    apply ts_assoc; [now destruct (k_assoc x)|].
-    intros Hs. rewrite Hs in *. discriminate.
+    apply ts_assoc; [lia| |unfold KSubmission in *; lia|].
+    + intros Hs. rewrite Hs in *. discriminate.
+    + intros Hs. rewrite Hs in *. discriminate.
   - (* ETaskStart *)
     destruct (find_task k (tasks s)) eqn:Eft; [|discriminate].
     destruct (stage_eqb (k_stage t) SInline).
@@ -323,7 +324,7 @@ Proof.
   - (* EDissoc *)
     sub_on_task H. inv Hf. injection Hf as <-. split_ands.
     eapply upd_task_by_tstep; [exact Hft| |reflexivity].
-    apply ts_dissoc; [now apply tst_eqb_true|assumption].
+    apply ts_dissoc; [now apply tst_eqb_true|lia].
   - (* ECount *) inv H. sub_on_coord H. tasks_same.
   - (* ES3Begin *)
     inv H.
